@@ -80,6 +80,11 @@ type sim struct {
 
 	stall *session // armed: the next Backend.Fetch of this session parks inside the operation
 
+	// a fault aimed at the first operation of a kind in the current event (wherever it comes)
+	targetKind  string
+	targetFault fault
+	targetPos   int // its position among the operations of the event, -1 = not met yet
+
 	nMirrorReplace int // Lock.Replace calls on SELF's mirror key in this history
 	mon            *monitors
 	stats          map[string]int
@@ -106,6 +111,10 @@ func (s *sim) nextFault(kind string) fault {
 	if len(s.faults) > 0 {
 		f = s.faults[0]
 		s.faults = s.faults[1:]
+	}
+	if s.targetKind == kind && s.targetPos < 0 {
+		s.targetPos = s.nops - 1
+		f = s.targetFault
 	}
 	s.stats["op|"+kind+":"+f.String()]++
 	return f
@@ -230,6 +239,7 @@ func (b simBackend) Upload(ctx context.Context, key string, data []byte, opts *c
 			if c, _, _, pok := parseNote(data); pok {
 				s.mon.published(c.size)
 			}
+			s.mon.public(s, data)
 		}
 	}
 	if rel, under := strings.CutPrefix(key, s.prefix); under && s.inEvent {
